@@ -34,7 +34,9 @@ RULE = (
     "noAuthNoPriv/authNoPriv/authPriv, usmStats Reports, the discovery reply, and a v2c trap. "
     "Faults per seed: EVERY single-bit flip (quick: every 3rd bit), EVERY truncation, EVERY "
     "substitution of every TLV header octet (tags and length octets located by the independent "
-    "decoder) by {00,7f,80,81,82,84,88,ff,30,04,a2}; plus nesting bombs and random byte "
+    "decoder) by {00,7f,80,81,82,84,88,ff,30,04,a2}; well-formed v3 messages with field-level "
+    "edits (USM fields of length 0/1/11/13/32/33/255/1000 under every flag combination, "
+    "extreme boots/time/msgID/maxSize/securityModel/flags values, C09's forgeries); plus nesting bombs and random byte "
     "strings up to the UDP maximum. SNMPv3 mutations are applied both before authentication "
     "(outer bytes) and after it: the mutated message is re-signed with the real key / the "
     "mutated plaintext scoped PDU is re-encrypted and re-signed, so that it passes the digest "
@@ -49,7 +51,7 @@ ASSUMPTIONS = [
     "budgets are finite: a spin reaches any finite budget; a watchdog firing is inconclusive, never a verdict",
     "known finding x690-indefinite-length-spin is classified by an observed event: x690's get_value_slice returned a next index that does not advance",
 ]
-REQUIRED_MONITORS = ("cases_within_budget", "followup_ok", "header_substitutions", "bit_flips", "truncations")
+REQUIRED_MONITORS = ("cases_within_budget", "followup_ok", "header_substitutions", "bit_flips", "truncations", "field_level_edits")
 
 SUBST = (0x00, 0x7F, 0x80, 0x81, 0x82, 0x84, 0x88, 0xFF, 0x30, 0x04, 0xA2)
 DB = {
@@ -358,6 +360,33 @@ def mutations(seed, quick, rng):
         yield "flip", pos, bytes(d)
 
 
+def usm_field_edits(t9):
+    """Well-formed v3 messages whose USM / header fields take extreme lengths and values."""
+    base = {k: v for k, v in t9.msg["usm"].items() if not k.startswith("_")}
+    pdu = t9.altered_pdu()
+    for field in ("engine_id", "user", "auth", "priv"):
+        for n in (0, 1, 11, 13, 32, 33, 255, 1000):
+            for flags in (t9.msg["flags"], 0, 1, 3):
+                usm = dict(base)
+                usm[field] = bytes([0x5A]) * n
+                out = {"msg_id": t9.msg["msg_id"], "max_size": 65507, "flags": flags, "sec_model": 3, "usm": usm, "scoped": (t9.engine, t9.ctx_name, pdu)}
+                yield "usm-%s-len%d-flags%d" % (field, n, flags), ber.enc_v3_message(out)
+    for field in ("boots", "time"):
+        for v in (0, -1, 2**31 - 1, 2**31, -(2**31), 2**63, 2**200):
+            usm = dict(base)
+            usm[field] = v
+            out = {"msg_id": t9.msg["msg_id"], "max_size": 65507, "flags": t9.msg["flags"], "sec_model": 3, "usm": usm, "scoped": (t9.engine, t9.ctx_name, pdu)}
+            yield "usm-%s-%d" % (field, v if abs(v) < 2**64 else 2**64), ber.enc_v3_message(out)
+    for key, vals in (("msg_id", (0, -1, 2**31, 2**200)), ("max_size", (0, -1, 483, 2**40)), ("sec_model", (0, 1, 2, 4, -1, 2**31)), ("flags", (0, 2, 6, 7, 8, 0xFF))):
+        for v in vals:
+            out = {"msg_id": t9.msg["msg_id"], "max_size": 65507, "flags": t9.msg["flags"], "sec_model": 3, "usm": dict(base), "scoped": (t9.engine, t9.ctx_name, pdu)}
+            out[key] = v
+            try:
+                yield "hdr-%s-%d" % (key, v if abs(v) < 2**64 else 2**64), ber.enc_v3_message(out)
+            except (ValueError, OverflowError):
+                pass
+
+
 def bombs(rng, quick):
     sizes = (64, 1000, 20000) if quick else (64, 1000, 20000, 65507)
     for size in sizes:
@@ -388,9 +417,9 @@ def run_case(R, t, kind, pos, data, variant):
     outcome, val, steps, peak = t.deliver(data)
     R.evaluations += 1
     R.mon["cases_run"] += 1
-    key = "bit_flips" if kind == "flip" else "truncations" if kind == "trunc" else "header_substitutions" if kind.startswith("hdr") else "bombs_and_random"
+    key = "bit_flips" if kind == "flip" else "truncations" if kind == "trunc" else "header_substitutions" if kind.startswith("hdr") else "field_level_edits" if kind.startswith("field-") else "bombs_and_random"
     R.mon[key] += 1
-    if isinstance(pos, int) and (pos % 16 == 0 or kind.startswith("hdr")):
+    if isinstance(pos, int) and (pos % 16 == 0 or kind.startswith("hdr") or kind.startswith("field-")):
         R.fingerprints.add("%s/%s/%s/%s/%s" % (t.level, t.mode, variant, kind, pos))
     R.notes["max_steps_seen_within_budget"] = max(R.notes.get("max_steps_seen_within_budget", 0), steps if outcome != "over" else 0)
     R.notes["max_heap_seen"] = max(R.notes.get("max_heap_seen", 0), peak)
@@ -459,6 +488,17 @@ def run(R):
         targets.append(t)
 
         def stream(t=t, level=level, mode=mode):
+            if mode == "get" and level in rig.AUTH_LEVELS:
+                # well-formed messages with field-level edits (empty / short / long
+                # digest, other users and engines, flag games, Reports ...): the same
+                # forgeries C09 judges for acceptance are judged here for time and space
+                from . import c09
+
+                t9 = c09.Target(level, "get", 0)
+                for name, data in c09.forgeries(t9):
+                    yield t, "field-" + name, 0, data, "structural"
+                for fields in usm_field_edits(t9):
+                    yield t, "field-" + fields[0], 0, fields[1], "structural"
             variants = [("outer", lambda d: d)]
             if getattr(t, "user", None) is not None and t.msg["flags"] & 1:
                 variants.append(("resigned", t.resign))
@@ -473,7 +513,6 @@ def run(R):
             if mode in ("get", "trap") and level in ("v2c", "v3-noauth"):
                 for kind, size, data in bombs(rng, quick):
                     yield t, kind, size, data, "outer"
-
         streams.append(stream())
     # round-robin over the targets, so that a time cap cuts every target evenly
     idx = 0
